@@ -13,7 +13,7 @@
    oracle_case: the three parts of C04 as the boolean oracles of Model/RegistryProto.v — the very
    functions the theorems of Properties/C04.v are about — evaluated on the IMPLEMENTATION's trace, and
    for kind 1 the black-box rule on lookups (an error, or the component itself fully initialised). *)
-From Coq Require Import List Arith Bool.
+From Coq Require Import List Arith Bool NArith.
 From IocVerif Require Import Model.Registry Model.RegistryProto.
 Import ListNotations.
 
@@ -33,7 +33,7 @@ Record lookup : Type := mkLk {
 }.
 
 Record case : Type := mkCase {
-  cid : nat;
+  cid : N;            (* binary: ids run into the hundreds of thousands *)
   ckind : nat;
   cops : list rop;
   cobs : list iobs;
@@ -138,9 +138,9 @@ Definition has_failure (ops : list rop) : bool :=
 Definition nontrivial (c : case) : bool :=
   has_failure (cops c) || has_nested 0 (trace repaired (cops c)).
 
-Definition mismatches (cs : list case) : list nat :=
+Definition mismatches (cs : list case) : list N :=
   map cid (filter (fun c => negb (check_case c)) cs).
-Definition violations (cs : list case) : list nat :=
+Definition violations (cs : list case) : list N :=
   map cid (filter (fun c => negb (oracle_case c)) cs).
 Definition count_nontrivial (cs : list case) : list nat :=
   [length (filter nontrivial cs)].
